@@ -15,7 +15,7 @@ EXTENDS Integers, Sequences, FiniteSets, TLC, Rat, Defs, FuncOps, Json, Randomiz
 CONSTANTS TS, TE, MaxSp, N,
           MRTS4, TAU4, RIFlag,      \* one keyword setting per run: MRTS = MRTS4/4, max_tau = TAU4/4
           FnSet,                    \* entry points explored
-          IdxMode,                  \* "none" | "all" (every ordered subset of size >= 2) | "pairs"
+          IdxMode,                  \* "none" | "all" (every ordered subset of size >= 2) | "pairs" | "perms"
           IvCodes,                  \* averaging intervals: 0 = None, 100*i+j = [TS+i/2, TS+j/2]
           ThrCodes,                 \* filter thresholds: 100*p+q = p/q
           Sample,                   \* 0 = all lists; k > 0 = every train drawn from a random k-subset
@@ -108,6 +108,7 @@ Ident == [k \in 1..N |-> k]
 InjSeqs(n) == {s \in [1..n -> 1..N] : \A i, j \in 1..n : i # j => s[i] # s[j]}
 IdxSet == IF IdxMode = "none" THEN {Ident}
           ELSE IF IdxMode = "pairs" THEN InjSeqs(2)
+          ELSE IF IdxMode = "perms" THEN InjSeqs(N)       \* every ordering of the whole list
           ELSE UNION {InjSeqs(n) : n \in 2..N}
 NoCall == [fn |-> "none", idx |-> <<>>, iv |-> 0, thr |-> 0, norm |-> FALSE]
 NoRes == [t |-> "none", f |-> [x |-> <<>>, y1 |-> <<>>, y2 |-> <<>>], v |-> Zero, mat |-> <<>>, lst |-> <<>>, lst2 |-> <<>>]
